@@ -13,6 +13,10 @@ Script ops (domain `eq`, trees in the jvtext format):
              put_idx with gaps, del_idx), then equal both ways / on themselves, deep copy of
              a' compared with a' and b'.  Equality and copying must depend on the value
              reached only, never on how the tree got there.
+             A step may also be a PROCESS-WIDE SETTING (@H0/@H1 json_global_set_string_hash,
+             @F<fmt> json_c_set_serialization_double_format) issued at any point between
+             building, mutating, copying (optional 6th field hg: after the copy) and comparing;
+             it must change nothing.  The drivers restore the defaults after every case.
 
   Y a rules tags   deep copy through a caller-supplied json_c_shallow_copy_fn that wraps
              json_c_shallow_copy_default and answers 1 / 2 / 2+application userdata / -1 as a
@@ -40,7 +44,9 @@ RULE = ("pairs/triples of trees generated independently from small alphabets (so
         "walks) compared with directly built trees of the same / another value; deep copies through a caller-supplied "
         "shallow-copy callback whose answers (1, 2, 2 + application userdata, -1 before / after creating the node) follow "
         "scripted predicates on type, parent type, depth, index / key, call number, every k-th call, with source nodes "
-        "carrying application userdata that the callback does or does not take care of; a case is non-trivial when "
+        "carrying application userdata that the callback does or does not take care of; process-wide settings "
+        "(json_global_set_string_hash default / perl-like, json_c_set_serialization_double_format) changed at random points "
+        "between building, mutating, deep-copying and comparing the trees, restored after every case; a case is non-trivial when "
         "the implementation produced a well-formed observation for it; distinct = distinct script line")
 TRUSTED = ["Coq 8.16.1 kernel (coqc), no axioms (Print Assumptions: closed under the global context)",
            "extraction (ExtrOcamlBasic only) + ocaml/mdrv glue (drv_eq.ml, jvtext.ml)",
@@ -174,6 +180,11 @@ def unhex(h):
 
 def py_mutate(v, mut):
     """returns (ok, tree')"""
+    if mut[0] == "@":
+        # a process-wide setting: accepted iff its argument is valid; never touches a tree
+        if mut[1] == "H":
+            return mut[2:] in ("0", "1"), v
+        return mut[1] == "F", v
     pos = 0
     path = []
     while pos < len(mut) and mut[pos] == "/":
@@ -443,6 +454,8 @@ def path_text(v, p):
 
 def gen_mut(rng, a):
     """a mutation probe addressed into `a` (mostly fitting the node's type)"""
+    if rng.random() < 0.08:
+        return rng.choice(GLOBAL_STEPS)      # the probe is a process-wide setting
     ps = list(paths(a))
     for _ in range(6):
         p = rng.choice(ps)
@@ -565,6 +578,18 @@ def walk_history(rng, t, n):
     return h
 
 
+GLOBAL_STEPS = ["@H1", "@H1", "@H1", "@H0", "@F" + b"%.3f".hex(), "@F" + b"%.1f".hex(), "@F" + b"%.17g".hex(), "@F" + b"%e".hex(), "@F-"]
+
+
+def sprinkle_globals(rng, h, p=0.5):
+    """insert settings changes at random points of a history"""
+    h = list(h)
+    if rng.random() < p:
+        for _ in range(rng.choice([1, 1, 2, 3])):
+            h.insert(rng.randint(0, len(h)), rng.choice(GLOBAL_STEPS))
+    return h
+
+
 def hist_text(h):
     return ";".join(h) if h else "-"
 
@@ -606,7 +631,24 @@ def gen_H(rng, out):
     if b0 is None:
         b0 = [None]
     hb = noise_history(rng, b0, 0.4) if rng.random() < 0.35 else []
-    out.append(("eq H %s %s %s %s" % (J.dump(a0), hist_text(ha), J.dump(b0), hist_text(hb)), {"kind": kind}))
+    hg = []
+    if rng.random() < 0.45:      # process-wide settings changed somewhere between building and comparing
+        ha, hb = sprinkle_globals(rng, ha), sprinkle_globals(rng, hb, 0.3)
+        hg = sprinkle_globals(rng, [], 0.5)
+        kind += "+settings"
+    out.append(("eq H %s %s %s %s %s" % (J.dump(a0), hist_text(ha), J.dump(b0), hist_text(hb), hist_text(hg)), {"kind": kind}))
+
+
+def gen_G(rng, out):
+    """no tree mutation at all: build, change a setting, compare / copy / compare"""
+    t = add_texts(rng, small_tree(rng, 3, 4, nan=0.02)) if rng.random() < 0.6 else J.gen_tree(rng, depth=rng.choice([2, 3]), size=rng.choice([3, 5, 9]))
+    if not (isinstance(t, list) or is_obj(t)) or rng.random() < 0.3:
+        t = ("o", [(b"k", t), (b"l", [t, ("o", [(b"m", t)])])])
+    b = rng.choice([t, t, permute(rng, t), repflip(rng, t), mutate_one(rng, t)])
+    ha = sprinkle_globals(rng, [], 0.8)
+    hb = sprinkle_globals(rng, [], 0.3)
+    hg = sprinkle_globals(rng, [], 0.6)
+    out.append(("eq H %s %s %s %s %s" % (J.dump(t), hist_text(ha), J.dump(b), hist_text(hb), hist_text(hg)), {"kind": "H-settings-only"}))
 
 
 # ---- deep copy through a scripted callback -------------------------------------------
@@ -829,6 +871,15 @@ def gen(rng, tier):
         out.append(("eq H %s %s %s %s" % (a0, ha, b0, hb), {"kind": "H-edge"}))
     for _ in range(700 if q else 25000):
         gen_H(rng, out)
+    for a0, ha, b0, hb, hg in [
+            ("{61=i1,62={63=[d3ff8000000000000]}}", "@H1", "{62={63=[d3ff8000000000000]},61=i1}", "-", "-"),
+            ("{61=i1}", "-", "{61=i1}", "-", "@H1"), ("{61=i1}", "@H1;@H0", "{61=i1}", "-", "-"), ("{61=i1}", "-", "{61=i1}", "@H1", "@H0"),
+            ("{61=i1}", "@H1;:P62=i2;@H0", "{61=i1,62=i2}", "-", "-"), ("{61=i1,62=i2}", "@H1;:K62", "{61=i1}", "-", "@H0"),
+            ("[{61={62=s78}}]", "@H1", "[{61={62=s78}}]", "@H1", "@H1"), ("{61=d3ff8000000000000}", "@F252e3166", "{61=d3ff8000000000000:312e35}", "-", "@F-"),
+            ("{61=i1}", "@H7", "{61=i1}", "-", "-"), ("n", "@H1", "n", "-", "@H1;:I1")]:
+        out.append(("eq H %s %s %s %s %s" % (a0, ha, b0, hb, hg), {"kind": "H-edge"}))
+    for _ in range(300 if q else 8000):
+        gen_G(rng, out)
     # deep copy through a caller-supplied callback
     for a, rules, tags in Y_EDGES:
         out.append(("eq Y %s %s %s" % (a, rules, tags), {"kind": "Y-edge"}))
@@ -991,6 +1042,9 @@ def oracle(line, meta, impl):
         h = parts[0].split(" ")
         if len(parts) != 3 or len(h) != 9 or h[0] != "H" or live_of(parts[2]) is None:
             return ("malformed", "unexpected driver output: " + impl[:100])
+        hg = f[6] if len(f) > 6 else "-"
+        og, _ = py_history(None, hg)
+        sett = " (process-wide settings were changed on the way)" if "@" in " ".join(f[3:]) else ""
         ta, tb = J.dump(canon(a)), J.dump(canon(b))
         if h[1] != oa or h[2] != ob or h[3] != ta or h[4] != tb:
             return ("mutation-result", "history gave %s %s / %s %s, expected %s %s / %s %s" % (h[1], h[3][:60], h[2], h[4][:60], oa, ta[:60], ob, tb[:60]))
@@ -1006,24 +1060,34 @@ def oracle(line, meta, impl):
         if ab and not want:
             return ("equal-but-denote-differs", "equal(a',b')=1 after the histories although the values differ")
         if want and not ab:
-            return ("denote-same-but-unequal", "equal(a',b')=0 although both histories reach the same value %s" % ta[:80])
+            return ("denote-same-but-unequal", "equal(a',b')=0 although both histories reach the same value %s%s" % (ta[:80], sett))
         k = parts[1].split(" ")
         if a is None:
             if k[:2] != ["K", "-1"]:
                 return ("copy-of-null", "deep copy of a NULL source did not fail")
+            if len(k) != 5 or k[3] != og or k[4] != ("1" if want else "0"):
+                return ("settings-visible", "after the settings steps %s: %s, expected %s %d" % (hg[:40], " ".join(k[3:]), og, want))
         else:
             if len(k) >= 2 and k[0] == "K" and k[1] != "0":
                 return ("copy-failed", "deep copy failed: " + parts[1][:60])
-            ek = bits(k[2:4] + k[7:9]) if len(k) == 9 else None
-            if ek is None:
+            ek = bits(k[2:4] + k[11:13]) if len(k) == 13 else None
+            e2 = bits(k[7:10]) if len(k) == 13 else None
+            if ek is None or e2 is None:
                 return ("malformed", "unexpected driver output: " + impl[:100])
+            if k[6] != og:
+                return ("mutation-result", "settings steps %s answered %s, expected %s" % (hg[:40], k[6], og))
+            k = k[:6] + k[10:]          # K rc e1 e2 dump shared same ecb ebc
             nf = not has_nan(a)
             if k[4] != ta:
                 return ("copy-dump-differs", "typed dump of the copy differs from its source (a tree with a history): %s vs %s" % (k[4][:100], ta[:100]))
             if nf and not (ek[0] and ek[1]):
-                return ("copy-unequal", "deep copy of a NaN-free tree with a history does not compare equal (%s %s)" % (k[2], k[3]))
+                return ("copy-unequal", "deep copy of a NaN-free tree with a history does not compare equal (%s %s)%s" % (k[2], k[3], sett))
             if not nf and (ek[0] or ek[1]):
                 return ("copy-nan-equal", "a tree containing a NaN compares equal to a different node")
+            # the same three comparisons again after the settings steps that follow the copy
+            if e2[0] != ek[0] or e2[1] != ek[1] or e2[2] != ab:
+                return ("settings-visible", "after the settings steps %s the comparisons (a',copy) (copy,a') (a',b') changed from %d %d %d to %d %d %d"
+                        % (hg[:40], ek[0], ek[1], ab, e2[0], e2[1], e2[2]))
             if k[5] != "0":
                 return ("copy-shares-node", "%s json_object node(s) reachable from both source and copy" % k[5])
             if k[6] != "6":
@@ -1033,7 +1097,7 @@ def oracle(line, meta, impl):
             if ek[2] and not want:
                 return ("equal-but-denote-differs", "equal(copy of a', b')=1 although the values differ")
             if want and not ek[2]:
-                return ("trans", "a' equals its copy and equals b', but the copy does not equal b'")
+                return ("trans", "a' equals its copy and equals b', but the copy does not equal b'" + sett)
         if parts[2] != "live=0":
             return ("leak", "allocations left: " + parts[2])
         return None
@@ -1213,8 +1277,8 @@ def shrink_H(ck, line, cls):
             return False
         v = oracle(l, {}, c.get(1, "MISSING"))
         return v is not None and v[0] == cls
-    for hi in (3, 5):
-        if f[hi] == "-":
+    for hi in (3, 5, 6):
+        if hi >= len(f) or f[hi] == "-":
             continue
         steps = f[hi].split(";")
 
